@@ -734,11 +734,11 @@ pub fn property() -> Property {
             "secp256k1-zkp renders curve points and proofs (serialize) correctly; the harness encoder is anchored on the repository's hex vectors",
         ],
         subs: vec![
-            Sub { name: "values", kind: Kind::Tape { max_len: 3000, quick: 30_000, thorough: 600_000, f: values } },
-            Sub { name: "mutants", kind: Kind::Tape { max_len: 3000, quick: 100_000, thorough: 3_000_000, f: mutants } },
-            Sub { name: "noncanonical", kind: Kind::Tape { max_len: 1500, quick: 20_000, thorough: 300_000, f: noncanonical } },
+            Sub { name: "values", kind: Kind::Tape { max_len: 3000, quick: 240_000, thorough: 2_400_000, f: values } },
+            Sub { name: "mutants", kind: Kind::Tape { max_len: 3000, quick: 800_000, thorough: 12_000_000, f: mutants } },
+            Sub { name: "noncanonical", kind: Kind::Tape { max_len: 1500, quick: 160_000, thorough: 1_200_000, f: noncanonical } },
             Sub { name: "vectors", kind: Kind::Index { count: |t| t.pick(15, 15 * 40), exhaustive: false, f: vectors } },
-            Sub { name: "raw_bytes", kind: Kind::Tape { max_len: 300, quick: 20_000, thorough: 400_000, f: raw_bytes } },
+            Sub { name: "raw_bytes", kind: Kind::Tape { max_len: 300, quick: 160_000, thorough: 1_600_000, f: raw_bytes } },
         ],
         known: vec![],
     }
